@@ -56,6 +56,22 @@ def gen_query(rng, tier, virtual=False):
         case["latents"] = rng.sample(hidden, rng.randint(1, min(2, len(hidden))))     # declared latent, never queried / observed
     case["virt"] = []
     case["warm"] = rng.random() < .4
+    if len(case["ev"]) >= 2 and rng.random() < .3:
+        # rare evidence: every observed state has probability ~1e-5 in every column of its CPD, so 0 < P(evidence) << 1e-8
+        for v, st_ in case["ev"]:
+            cpd = next(c for c in case["cpds"] if c["child"] == v)
+            k = len(cpd["table"])
+            if k < 2:
+                continue
+            for j in range(len(cpd["table"][0])):
+                p = Fraction(rng.randint(1, 9), 10 ** 5)
+                rest = sum(Fraction(cpd["table"][i][j]) for i in range(k) if i != st_)
+                for i in range(k):
+                    if i == st_:
+                        cpd["table"][i][j] = rs(p)
+                    else:
+                        cpd["table"][i][j] = rs((1 - p) * (Fraction(cpd["table"][i][j]) / rest if rest else Fraction(1, k - 1)))
+        case["rare"] = True
     if virtual:
         cand = [v for v in range(n) if v not in ev]
         for v in rng.sample(cand, rng.randint(1, min(2, len(cand)))):
@@ -157,7 +173,7 @@ def run_query(case, drv):
                 pass
     evidence = {pn[v]: gen.lab(labels[v][i]) for v, i in case["ev"]}
     tags = dict(order=str(case["order"]), joint=case["joint"], shape=case["shape"], n=len(names), nev=len(case["ev"]),
-                virt=len(case["virt"]), latents=len(case.get("latents", [])))
+                virt=len(case["virt"]), latents=len(case.get("latents", [])), rare=bool(case.get("rare")))
     try:
         res = ve.query([pn[v] for v in case["q"]], evidence=evidence or None, elimination_order=order,
                        joint=case["joint"], show_progress=False, **kw)
